@@ -925,6 +925,29 @@ func (tb *l1Table) allPartInvariants() error {
 	return nil
 }
 
+// memRuns returns the runs of consecutive memory parts of one segment in snapshot order (the groups a
+// memory-part merge round handles one by one).
+func (tb *l1Table) memRuns() [][]uint64 {
+	s := tb.tst.currentSnapshot()
+	if s == nil {
+		return nil
+	}
+	defer s.decRef()
+	var runs [][]uint64
+	var last int64
+	for _, pw := range s.parts {
+		if pw.mp == nil {
+			continue
+		}
+		if len(runs) == 0 || pw.mp.segmentID != last {
+			runs = append(runs, nil)
+			last = pw.mp.segmentID
+		}
+		runs[len(runs)-1] = append(runs[len(runs)-1], pw.ID())
+	}
+	return runs
+}
+
 func (tb *l1Table) memGroupsMerged() error {
 	s := tb.tst.currentSnapshot()
 	if s == nil {
